@@ -771,6 +771,11 @@ func addrClass(a, b Res) string {
 	if loc == nil {
 		return where + "|pointer-inside-fmt-composite" // mangled beyond recognition; established by addressOnly
 	}
+	if strings.HasSuffix(s[:loc[0]], ":") {
+		// "key:0xc000..." is how fmt prints a map entry or a struct field: inside a composite even
+		// if a later filter took the brackets away
+		return where + "|pointer-inside-fmt-composite"
+	}
 	depth := 0
 	for _, ch := range s[:loc[0]] {
 		switch ch {
